@@ -158,7 +158,7 @@ CLAIMED = {
   note='Partial: DNS caching, connection reuse and real timeouts are covered by the correspondence campaign, not by theorems.'),
  'C19': dict(
   text='PARTIAL (liveness is a termination theorem over the pool\'s own steps: idle timers and connection faults between messages are environment events and must be finitely many; '
-       'RSET-after-failure and one-message-at-a-time on a reused connection are monitored on the implementation, not proved). Lean theorems over '
+       'the pool model and the command model of a reused connection are two models, not one). Lean theorems over '
        'Model/Pool.lean: BlockingDeque keeps semaphore = length under every sequence of its 8 operations, a pop never finds the deque empty behind '
        'the semaphore and blocks exactly when it is empty; the pool transition system (labels: attempt, poll, wake, idle expiry, finish, fail, '
        're-queue, connection drop, link callback; SMTP-style exiting clients and HTTP-style persistent clients) keeps for every interleaving: '
